@@ -60,6 +60,10 @@ let handle mode op args =
   | "val", rules :: q :: srcs ->
       out_bytes (dump_validate_with d (prelude mode) (bytes_of_hex rules) (bytes_of_hex q) (List.map bytes_of_hex srcs))
   | "link", q :: srcs -> out_bytes (dump_link_with d (prelude mode) (bytes_of_hex q) (List.map bytes_of_hex srcs))
+  | "vars", q :: vs :: srcs ->
+      out_bytes (dump_vars_with d (prelude mode) (bytes_of_hex q) (bytes_of_hex vs) (List.map bytes_of_hex srcs))
+  | "argmap", m :: q :: vs :: srcs ->
+      out_bytes (dump_argmap_with d (prelude mode) (bytes_of_hex m) (bytes_of_hex q) (bytes_of_hex vs) (List.map bytes_of_hex srcs))
   | _ -> "BADOP"
 
 let () =
